@@ -28,6 +28,64 @@ def find_eq_guard(ctx, fn, want_a, want_b):
         if (ra == want_a and rb == want_b) or (ra == want_b and rb == want_a):
             truth = (c[1] == "eq")
             res.append((g, g.edge(truth), g.edge(not truth)))
+    if not res:
+        res = find_eq_guard_in_helpers(ctx, fn, want_a, want_b)
+    return res
+
+
+class _HelperGuard:
+    def __init__(self, b):
+        self.b = b
+
+
+def subst_param_roots(roots, helper, arg_roots):
+    """Rewrite root strings of `helper`'s parameters into the caller's roots (single-root arguments only)."""
+    out = set()
+    for r in roots:
+        done = False
+        for i, ar in arg_roots.items():
+            key = "P:%s#%d" % (helper.path, i)
+            idx = r.find(key)
+            if idx >= 0 and len(ar) == 1:
+                nxt = r[idx + len(key):idx + len(key) + 1]
+                if nxt == "" or not nxt.isdigit():
+                    r = r.replace(key, list(ar)[0])
+                    done = True
+        out.add(r)
+    return out
+
+
+def find_eq_guard_in_helpers(ctx, fn, want_a, want_b):
+    """`check_helper(..)?` : a propagated call of an effect-free helper that errs unless want_a == want_b."""
+    P = ctx.P
+    res = []
+    for b, p, fr, t in P.calls(fn):
+        if not roles.is_workspace_fn(P, p):
+            continue
+        h = P.fn(p) or P.fn(common.generic_path(p))
+        if h is None or h.path == fn.path or roles.effects(P, h):
+            continue
+        pg = common.propagated(P, fn, b)
+        if pg is None:
+            continue
+        cv = P.val_call(fn, fn.body, b)
+        arg_roots = {i: set(ctx.roots(a)) for i, a in enumerate(cv[4])}
+        for g in common.bool_guards(P, h):
+            c = g.cond
+            if c[0] != "cmp" or c[1] not in ("eq", "ne") or len(c[2]) != 2:
+                continue
+            ra = subst_param_roots(ctx.roots(c[2][0]), h, arg_roots)
+            rb = subst_param_roots(ctx.roots(c[2][1]), h, arg_roots)
+            if not ((ra == want_a and rb == want_b) or (ra == want_b and rb == want_a)):
+                continue
+            truth = (c[1] == "eq")
+            ok, why = common.fail_edge_only_errors(P, h, g.edge(not truth))
+            if not ok:
+                continue
+            if not all(h.body.edge_dominates(g.edge(truth), eb) for (eb, i_, cls, v) in common.ok_exit_blocks(P, h)):
+                continue
+            s, cont, brk = pg
+            res.append((_HelperGuard(b), cont, brk))
     return res
 
 
